@@ -258,7 +258,15 @@ pub fn decode_regular(rsm: RawSourceMap) -> Result<SourceMap> {
     sm.set_source_root(rsm.source_root);
     // Use _debug_id_new (from "debugId" key) only if debug_id
     // from ( "debug_id" key) is unset
-    sm.set_debug_id(rsm.debug_id.or(rsm._debug_id_new));
+    // Source map debug ids are UUIDs. `DebugId` also parses the short PDB 2.0
+    // form ("<timestamp><age>"), whose text form is not parseable again when the
+    // age is 0, so keep every id in its UUID form: a decoded map can then
+    // always be written and read back.
+    let debug_id = rsm
+        .debug_id
+        .or(rsm._debug_id_new)
+        .map(|id| debugid::DebugId::from_parts(id.uuid(), id.appendix()));
+    sm.set_debug_id(debug_id);
     if let Some(ignore_list) = rsm.ignore_list {
         for idx in ignore_list {
             sm.add_to_ignore_list(idx);
